@@ -12,9 +12,13 @@ from .. import meshlib, simlib, refs, seams
 
 
 class MeshRec:
-    def __init__(self, raw, orphans=0):
+    def __init__(self, raw, orphans=0, variant=0):
         self.raw = raw
         self.coord = raw.coord.copy()
+        if variant:
+            # a stretched copy of another mesh of the run: same connectivity, same number of dofs, other operators
+            c = self.coord.mean(axis=0)
+            self.coord = (self.coord - c) * np.array([1.3, 0.8, 1.0]) + c
         if orphans:
             # nodes that no element uses (left over by a mesh generator): every mesh of a run may have its own number
             z = float(raw.coord[:, 2].max())
@@ -99,6 +103,11 @@ class FreshWorld(World):
         if not heavy and rng.random() < 0.25:
             # nodes attached to no element, a different number per mesh (what is known about them must follow the mesh)
             cfg["orphans"] = [int(rng.integers(0, 4)) for _ in meshes]
+        elif n_mesh == 2 and rng.random() < 0.35:
+            # the second mesh is a stretched copy of the first (a remeshing that keeps the topology): nothing in the
+            # sizes of the arrays tells the two apart
+            cfg["meshes"] = [meshes[0], meshes[0]]
+            cfg["variants"] = [0, 1]
         return cfg
 
     # ------------------------------------------------------------------ build
@@ -132,7 +141,10 @@ class FreshWorld(World):
         self.dim = cfg["dim"]
         with ctx.sut():
             orph = cfg.get("orphans") or [0] * len(cfg["meshes"])
-            self.meshes = [MeshRec(lib[n], orph[i]) for i, n in enumerate(cfg["meshes"])]
+            var = cfg.get("variants") or [0] * len(cfg["meshes"])
+            self.meshes = [MeshRec(lib[n], orph[i], var[i]) for i, n in enumerate(cfg["meshes"])]
+            if any(var):
+                ctx.probe("mesh_is_a_stretched_copy_of_another")
             if any(orph):
                 ctx.probe("mesh_with_orphan_nodes")
             self.models = [ModelRec(m["kind"], m["params"], self.meshes[m.get("mesh", 0)].live) for m in cfg["models"]]
